@@ -74,7 +74,7 @@ def {N}(Py_ssize_t start, Py_ssize_t stop, Py_ssize_t step, int nt, int chunk, i
         s += i * 3 + (i & 5)
         sub -= i
         x ^= (i * 40503) & 0xFFFF
-        o |= (1 << (i & 31))
+        o |= (<long>1 << (i & 31))
         m *= (1 if (i & 3) else -1)
         d += i * 0.5
     return s, sub, x, o, m, d, i
